@@ -209,12 +209,11 @@ func ruleWorkingContextHalfEven(w *World, r *RuleResult) {
 		for _, f := range w.closureFuncs(top) {
 			for _, mk := range w.callsTo(f, "MakeErrDecimal") {
 				base := basePtr(mk.Common().Args[0])
-				cp, isCall := base.(*ssa.Call)
-				if !isCall || w.calleeName(cp) != "(*Context).WithPrecision" {
+				ci := w.ctxCtor(base)
+				if ci == nil {
 					continue
 				}
-				src := basePtr(cp.Common().Args[0])
-				if _, fromParam := src.(*ssa.Parameter); !fromParam {
+				if _, fromParam := ci.fromParam(); !fromParam {
 					continue // derived from BaseContext: its mode does not depend on the caller
 				}
 				key := fmt.Sprintf("%s | working context rounds half-even", w.shortName(f))
@@ -229,6 +228,9 @@ func ruleWorkingContextHalfEven(w *World, r *RuleResult) {
 					fa, ok := st.Addr.(*ssa.FieldAddr)
 					return ok && basePtr(fa.X) == base && w.exprOf(f, st.Addr).Name == "Rounding" && w.exprOf(f, st.Val).String() == halfEven
 				})
+				if v, ok := ci.Consts["Rounding"]; ok && v == halfEven {
+					stored = true // set by the constructor helper itself
+				}
 				if stored {
 					r.ok(key, w.instrPos(mk), "Rounding = RoundHalfEven is stored into the copy before it is used", true)
 				} else {
@@ -574,5 +576,150 @@ func rulePlusOverridesSpace(w *World, r *RuleResult) {
 		r.bad(key, w.pos(f.Pos()), joinStrings(bad)+": with both flags fmt prints '+' (%+ G of 1.5 must be \"+1.5\")")
 	default:
 		r.ok(key, w.pos(f.Pos()), "\" \" is chosen only where Flag('+') is false", true)
+	}
+}
+
+func init() {
+	register(&Rule{ID: "C11.R3", Min: 1,
+		Text: "Sqrt does not simply round its Newton iterate: where the iteration is used, the last digit and the Inexact flag are decided by exact comparisons with the (scaled) operand — a product x·x formed under BaseContext (no digit limit) is compared with the operand copy both to choose between the truncated candidate and its successor and to set Inexact",
+		Run:  ruleSqrtExactLastDigit})
+}
+
+func ruleSqrtExactLastDigit(w *World, r *RuleResult) {
+	f := w.fn("(*Context).Sqrt")
+	if f == nil {
+		r.anchorMissing("(*Context).Sqrt")
+		return
+	}
+	key := "(*Context).Sqrt | last digit and Inexact decided against the operand"
+	// only for the Newton shape: a loop dividing the operand copy by the iterate
+	newton := false
+	for _, body := range loopsOf(f) {
+		for b := range body {
+			for _, in := range b.Instrs {
+				if c, ok := in.(*ssa.Call); ok && w.calleeName(c) == "(*ErrDecimal).Quo" {
+					newton = true
+				}
+			}
+		}
+	}
+	if !newton {
+		r.ok(key, w.pos(f.Pos()), "Sqrt is not computed by a Newton iteration here: this shape is not decided", false)
+		return
+	}
+	di, xi := destArgIndex(w, f), -1
+	for i, p := range f.Params {
+		if i != di && isDecimalPtr(p.Type()) {
+			xi = i
+		}
+	}
+	// copies of the operand
+	copies := map[ssa.Value]bool{}
+	for _, c := range w.callsTo(f, "(*Decimal).Set") {
+		if xi >= 0 && c.Common().Args[1] == ssa.Value(f.Params[xi]) {
+			copies[basePtr(c.Common().Args[0])] = true
+		}
+	}
+	// exact squares: Mul(dst, v, v) on an ErrDecimal made from BaseContext itself
+	squares := map[ssa.Value]bool{}
+	for _, m := range w.callsTo(f, "(*ErrDecimal).Mul") {
+		a := m.Common().Args
+		if len(a) != 4 || basePtr(a[2]) != basePtr(a[3]) {
+			continue
+		}
+		for _, mk := range w.callsTo(f, "MakeErrDecimal") {
+			if gl, isG := basePtr(mk.Common().Args[0]).(*ssa.Global); isG && gl.Name() == "BaseContext" && w.sameErrDecimal(f, a[0], mk) {
+				squares[basePtr(a[1])] = true
+			}
+		}
+	}
+	// comparisons operand-copy vs exact square
+	var cmps []*ssa.Call
+	for _, c := range w.callsTo(f, "(*Decimal).Cmp") {
+		a0, a1 := basePtr(c.Common().Args[0]), basePtr(c.Common().Args[1])
+		if (copies[a0] && squares[a1]) || (copies[a1] && squares[a0]) {
+			cmps = append(cmps, c)
+		}
+	}
+	// one comparison steers an increment of a coefficient, one steers the Inexact flag
+	steersIncr, steersInexact := false, false
+	inexact := w.conditionConsts()["Inexact"]
+	for _, c := range cmps {
+		for _, b := range f.Blocks {
+			iff, isIf := b.Instrs[len(b.Instrs)-1].(*ssa.If)
+			if !isIf || !w.condMentions(iff.Cond, c) {
+				continue
+			}
+			for _, sc := range b.Succs {
+				for _, in := range sc.Instrs {
+					if ac, isCall := in.(*ssa.Call); isCall && w.calleeName(ac) == "(*BigInt).Add" {
+						steersIncr = true
+					}
+				}
+			}
+		}
+		// the comparison's outcome reaches an OR with Inexact (possibly through a bool local)
+		for _, b := range f.Blocks {
+			for _, in := range b.Instrs {
+				bo, isB := in.(*ssa.BinOp)
+				if !isB || bo.Op != token.OR {
+					continue
+				}
+				for _, o := range []ssa.Value{bo.X, bo.Y} {
+					if bits, isK := condBits(o); isK && bits&inexact != 0 {
+						for _, g := range guardsAt(b) {
+							if w.condMentions(g.Cond, c) {
+								steersInexact = true
+							}
+							// through a boolean: inexact := sq.Cmp(&f) != 0 ; if inexact {...}
+							if cmpBo, isC := g.Cond.(*ssa.BinOp); isC && w.condMentions(cmpBo, c) {
+								steersInexact = true
+							}
+						}
+						for _, pb := range b.Preds {
+							for _, g := range edgeGuards(pb, b) {
+								if w.condMentions(g.Cond, c) {
+									steersInexact = true
+								}
+							}
+						}
+					}
+				}
+			}
+		}
+	}
+	// a boolean φ of the comparison guarding the OR
+	if !steersInexact {
+		for _, c := range cmps {
+			if refs := c.Referrers(); refs != nil {
+				for _, u := range *refs {
+					if bo, isB := u.(*ssa.BinOp); isB && (bo.Op == token.NEQ || bo.Op == token.EQL) {
+						for _, blk := range f.Blocks {
+							iff, isIf := blk.Instrs[len(blk.Instrs)-1].(*ssa.If)
+							if !isIf || !w.condMentions(iff.Cond, bo) {
+								continue
+							}
+							for _, sc := range blk.Succs {
+								for _, in := range sc.Instrs {
+									if ob, isO := in.(*ssa.BinOp); isO && ob.Op == token.OR {
+										for _, o := range []ssa.Value{ob.X, ob.Y} {
+											if bits, isK := condBits(o); isK && bits&inexact != 0 {
+												steersInexact = true
+											}
+										}
+									}
+								}
+							}
+						}
+					}
+				}
+			}
+		}
+	}
+	switch {
+	case len(cmps) >= 2 && steersIncr && steersInexact:
+		r.ok(key, w.pos(f.Pos()), fmt.Sprintf("%d exact comparisons of the operand copy with a square formed under BaseContext: one chooses between the truncated candidate and its successor, one sets Inexact", len(cmps)), true)
+	default:
+		r.bad(key, w.pos(f.Pos()), fmt.Sprintf("the iterate is rounded without being checked against the operand (exact comparisons found: %d, one steers the last digit: %v, one steers Inexact: %v): when the root lies just below a rounding midpoint or a representable value the iterate can be that very point, and rounding it resolves a tie that does not exist (Sqrt(0.9999999) at Precision 7 = 1.000000; Sqrt(0.999999998) at Precision 9 reported exact)", len(cmps), steersIncr, steersInexact))
 	}
 }
